@@ -219,7 +219,7 @@ func init() {
 			mandatory:   []string{"content_checks", "probe_ok", "probe_out_of_buffer", "probe_end_of_buffer", "byteat_at_end", "write_full", "readfrom_full", "readfrom_reader_error", "shrink_boundary_probed", "reset_oversize_rejected", "reset_mode2", "reset_mode3", "wrap:refills", "wrap:shrink_discarding"}},
 		types: types, quickN: 12000, thorMul: 40, corpusN: 300, large: true,
 		weights: HWeights{Write: 16, ReadFrom: 14, Parse: 18, ParseNTL: 4, ParseNil: 4, Shrink: 14, Reset: 1, ResetData: 6, Probe: 40, WParse: 8, Faults: true},
-		scale:   []string{"hugeshrink", "stutter", "manyseq"},
+		scale:   []string{"hugeshrink", "stutter", "manyseq", "trickle", "hugegrow", "hugeblock"},
 		newObs: func(pc *PCase, ps *PState, c *core.Case, st *core.Stats) histObserver {
 			return &c15obs{cr: commonReach{st: st}, st: st}
 		},
